@@ -364,6 +364,43 @@ theorem imageOf_eq_fast (es : List Emitted) (hno : NoCommon es) (start : Int) (s
   rw [imageOf_eq_spec es hno, maxAddr_memMap_eq_last]
   rfl
 
+theorem lookupLines_eq (es : List Emitted) (fill : Nat) (a : Int) :
+    lookupLines (imageLines es) fill a = specImageByte es fill a := by
+  unfold lookupLines imageLines specImageByte
+  induction es with
+  | nil => rfl
+  | cons e es ih =>
+    by_cases hb : (e.isByte && !e.muted) = true
+    · have hf : List.filter (fun e => e.isByte && !e.muted) (e :: es) = e :: List.filter (fun e => e.isByte && !e.muted) es :=
+        List.filter_cons_of_pos (p := fun (e : Emitted) => e.isByte && !e.muted) hb
+      rw [hf, List.map_cons, List.find?_cons, List.find?_cons]
+      simp only [List.size_toArray]
+      by_cases hc : (decide (e.addr ≤ a) && decide (a < e.addr + ↑e.bytes.length)) = true
+      · have : (e.isByte && !e.muted && decide (e.addr ≤ a) && decide (a < e.addr + ↑e.bytes.length)) = true := by
+          simp only [Bool.and_eq_true] at hb hc ⊢
+          exact ⟨⟨⟨hb.1, hb.2⟩, hc.1⟩, hc.2⟩
+        simp only [hc, this]
+        simp
+      · have hc' : (decide (e.addr ≤ a) && decide (a < e.addr + ↑e.bytes.length)) = false := by simpa using hc
+        have : (e.isByte && !e.muted && decide (e.addr ≤ a) && decide (a < e.addr + ↑e.bytes.length)) = false := by
+          rw [Bool.and_assoc, hc']; simp
+        simp only [hc', this]
+        exact ih
+    · have hb' : (e.isByte && !e.muted) = false := by simpa using hb
+      have hf : List.filter (fun e => e.isByte && !e.muted) (e :: es) = List.filter (fun e => e.isByte && !e.muted) es :=
+        List.filter_cons_of_neg (p := fun (e : Emitted) => e.isByte && !e.muted) (by simp [hb'])
+      rw [hf, List.find?_cons]
+      have : (e.isByte && !e.muted && decide (e.addr ≤ a) && decide (a < e.addr + ↑e.bytes.length)) = false := by
+        rw [hb']; simp
+      simp only [this]
+      exact ih
+
+theorem imageFastA_eq (start : Int) (stop : Option Int) (fill : Nat) (es : List Emitted) :
+    imageFastA start stop fill es = imageFast start stop fill es := by
+  unfold imageFastA imageFast
+  simp only [lookupLines_eq]
+  all_goals (cases stop <;> rfl)
+
 theorem assemble_eq_fast (cfg : Cfg) (files : List (List Stmt)) (start : Int) (stop : Option Int) (fill : Nat) :
     assemble cfg files start stop fill = assembleFast cfg files start stop fill := by
   unfold assemble assembleFast
@@ -377,7 +414,7 @@ theorem assemble_eq_fast (cfg : Cfg) (files : List (List Stmt)) (start : Int) (s
     | ok u =>
       cases u
       simp only
-      rw [imageOf_eq_fast es (noCommon_of_check es (assembleLines_wf cfg files es L hl) ho)]
+      rw [imageOf_eq_fast es (noCommon_of_check es (assembleLines_wf cfg files es L hl) ho), imageFastA_eq]
 
 theorem asmText_eq_fast (cfg : Cfg) (pc : PCfg) (files : List String) (start : Int) (stop : Option Int) (fill : Nat) :
     asmText cfg pc files start stop fill = asmTextFast cfg pc files start stop fill := by
